@@ -69,8 +69,7 @@ lists; struct layout and `sizeof` values other than 8 for pointers and 64-bit in
 product of `calloc(n, size)` (the allocator's business); aliasing between different pointers; reads of
 uninitialised locals (they read as 0); `(size_t) <float>` outside the range of size_t (undefined in C,
 saturating here).
-NOT TRANSLATED: in `cc_deque.c` `add_at` / `remove_at` (their text is inside the subset — four `memmove` shapes
-each — but no agreement theorem has been written yet, so they are left out of TABLE), `replace_at`, the copies,
+NOT TRANSLATED: in `cc_deque.c` `replace_at`, the copies,
 filters, `index_of`, `contains`, `reverse`, `trim_capacity`, the iterators; in `cc_queue.c` `destroy_cb`,
 `foreach`, the iterator wrappers; in `cc_array.c` / `cc_stack.c` everything that takes a callback, builds a derived container or iterates
 (`destroy_cb`, `remove_all_free`, `subarray`, the copies, the filters, `contains_value`, `sort`, `map`, `reduce`,
@@ -109,7 +108,8 @@ TABLE = [
     dict(file="src/cc_deque.c", struct="cc_deque_s", arrays=["buffer"], memory=None, elem=True, out="FuncsDeque",
          funcs=["cc_deque_conf_init", "cc_deque_new_conf", "cc_deque_new", "cc_deque_destroy",
                 "cc_deque_add_first", "cc_deque_add_last", "cc_deque_remove_first", "cc_deque_remove_last",
-                "cc_deque_get_at", "cc_deque_get_first", "cc_deque_get_last", "cc_deque_size", "cc_deque_capacity"]),
+                "cc_deque_get_at", "cc_deque_get_first", "cc_deque_get_last", "cc_deque_size", "cc_deque_capacity",
+                "cc_deque_add_at", "cc_deque_remove_at"]),
     dict(file="src/cc_stack.c", struct="cc_stack_s", arrays=[], memory=None, elem=True, out="FuncsStack",
          imports=["FuncsArray"],
          funcs=["cc_stack_conf_init", "cc_stack_new_conf", "cc_stack_new", "cc_stack_destroy",
